@@ -250,7 +250,10 @@ def r_ord_ctor(ctx):
     def table(lname_pred, extra_true):
         res = []
         for l, r in ((1, 2), (2, 2), (3, 2)):     # (quantity, window)
-            fired = False
+            fired = unknown = False
+
+            def relevant(a_):
+                return any(lname_pred(x) for x in walk_term(a_))
             for nd in raises:
                 vals = []
                 for atom, pol in ctx.conds(f, nd):
@@ -266,7 +269,10 @@ def r_ord_ctor(ctx):
                     vals.append(UNKNOWN if v is UNKNOWN else (bool(v) == pol))
                 if vals and all(v is True for v in vals):
                     fired = True
-            res.append('raise' if fired else 'accept')
+                elif vals and not any(v is False for v in vals) and any(
+                        v is UNKNOWN and relevant(atom_) for v, (atom_, _p) in zip(vals, ctx.conds(f, nd))):
+                    unknown = True
+            res.append('raise' if fired else ('unknown' if unknown else 'accept'))
         return tuple(res)
     run.count('cases', 6)
     t1 = table(lambda x: x == ('v', 'max_homopolymer_runs', 'P'), None)
@@ -274,6 +280,8 @@ def r_ord_ctor(ctx):
     # required: accept r<k, raise r=k, raise r>k
     if t1 == ('accept', 'raise', 'raise'):
         run.ok('R-ORD', f, 'run-vs-window', line, 'accepts only run limit < window', extracted=list(t1))
+    elif 'unknown' in t1:
+        run.undecided('R-ORD', f, 'run-vs-window', line, 'the guard is not evaluable on the three orderings: %s' % (t1,))
     else:
         if t1[0] != 'accept':
             run.refute('R-ORD', f, 'run<window rejected', line, 'constructor rejects a run limit below the window: table %s' % (t1,),
@@ -289,7 +297,10 @@ def r_ord_ctor(ctx):
                        'constructor accepts a run limit above the window: table %s' % (t1,), extracted=list(t1),
                        inputs='LocalBioFilter(observed_length=k, max_homopolymer_runs>k)')
     t2 = table(lambda x: is_call(x, 'builtins.len') and x[2] and x[2][0][0] in ('iter', 'item'), None)
-    run.check(t2 == ('accept', 'accept', 'raise'), 'R-ORD', f, 'motif-vs-window', line,
+    if 'unknown' in t2:
+        run.undecided('R-ORD', f, 'motif-vs-window', line, 'the guard is not evaluable on the three orderings: %s' % (t2,))
+    else:
+      run.check(t2 == ('accept', 'accept', 'raise'), 'R-ORD', f, 'motif-vs-window', line,
               'accepts only motif length <= window',
               'constructor motif-length table for m<k, m=k, m>k is %s; required accept, accept, raise' % (t2,),
               extracted=list(t2), inputs='motifs as long as / longer than the window')
